@@ -82,6 +82,8 @@ impl Cache for InnerGate {
         r
     }
     fn remove(&self, key: &KeyType) -> Option<(KeyType, Record)> {
+        // the unchanged policy never asks this of its store; if it does, the call is a step of its own
+        self.gate.enter("remove");
         self.mem.remove(key)
     }
 }
@@ -365,8 +367,87 @@ pub fn gen_case(rng: &mut Rng) -> DeepCase {
     DeepCase { limit, setup, programs }
 }
 
+/// profile `C03deep`: one key, a memory limit that is never reached (so the policy must be invisible), programs of get /
+/// set / CAS-set / delete: every interleaving of the calls the policy makes on its store must be linearizable
+pub fn gen_case_lin(rng: &mut Rng) -> DeepCase {
+    let k = b"a".to_vec();
+    let mut setup: Vec<Vec<u8>> = vec![];
+    let present = rng.chance(2, 3);
+    if present {
+        setup.push(wire::set_like(op::SET, &k, b"5", 9, 0, 0, 1).bytes());
+    }
+    let tok = 1u64;
+    let nthreads = if rng.chance(1, 3) { 3 } else { 2 };
+    let programs: Vec<Vec<Vec<u8>>> = (0..nthreads)
+        .map(|_| {
+            (0..(if nthreads == 2 && rng.chance(1, 3) { 2 } else { 1 }))
+                .map(|_| {
+                    let opq = rng.next() as u32;
+                    match rng.below(6) {
+                        0 | 1 => wire::key_only(op::GET, &k, 0, opq).bytes(),
+                        2 | 3 => wire::set_like(op::SET, &k, &rng.bytes(2), 1, 0, 0, opq).bytes(),
+                        4 => wire::set_like(op::SET, &k, &rng.bytes(2), 1, 0, *rng.pick(&[tok, tok, 99]), opq).bytes(),
+                        _ => wire::key_only(op::DELETE, &k, *rng.pick(&[0u64, 0, tok, 99]), opq).bytes(),
+                    }
+                })
+                .collect()
+        })
+        .collect();
+    DeepCase { limit: 1 << 20, setup, programs }
+}
+
+/// is there a one-at-a-time order of the commands (each client's own order kept) whose execution on the plain store
+/// (eviction policy none: with the limit out of reach the policy must not be observable) gives these results and
+/// this content?
+pub fn linearizable_plain(case: &DeepCase, o: &DeepOutcome) -> bool {
+    let n = case.programs.len();
+    let total: usize = case.programs.iter().map(|p| p.len()).sum();
+    let mut orders: Vec<Vec<usize>> = vec![];
+    fn perms(progs: &[Vec<Vec<u8>>], idx: &mut Vec<usize>, cur: &mut Vec<usize>, out: &mut Vec<Vec<usize>>, total: usize) {
+        if cur.len() == total {
+            out.push(cur.clone());
+            return;
+        }
+        for t in 0..progs.len() {
+            if idx[t] < progs[t].len() {
+                idx[t] += 1;
+                cur.push(t);
+                perms(progs, idx, cur, out, total);
+                cur.pop();
+                idx[t] -= 1;
+            }
+        }
+    }
+    perms(&case.programs, &mut vec![0; n], &mut vec![], &mut orders, total);
+    for order in &orders {
+        let clock = Arc::new(Clock(AtomicU64::new(0)));
+        let mem = Arc::new(MemoryStore::new(clock.clone()));
+        let memc = Arc::new(MemcStore::new(mem.clone()));
+        let h = BinaryHandler::new(memc);
+        for f in &case.setup {
+            let _ = run_one_pub(&h, 4096, f);
+        }
+        clock.0.store(10, Ordering::SeqCst);
+        let mut results: Vec<Vec<String>> = vec![vec![]; n];
+        let mut idx = vec![0usize; n];
+        for t in order {
+            let f = &case.programs[*t][idx[*t]];
+            idx[*t] += 1;
+            results[*t].push(canon(f, &run_one_pub(&h, 4096, f)));
+        }
+        if results == o.results && crate::sut::Sut::dump_of(&mem) == o.dump {
+            return true;
+        }
+    }
+    false
+}
+
 /// generated suite
-pub fn run_suite(seed: u64, count: u64, per_case: usize, mut trace: Option<std::fs::File>) -> (Vec<String>, Vec<String>, Vec<(usize, usize, Vec<&'static str>, String)>, SchedStats) {
+pub fn run_suite(seed: u64, count: u64, per_case: usize, trace: Option<std::fs::File>) -> (Vec<String>, Vec<String>, Vec<(usize, usize, Vec<&'static str>, String)>, SchedStats) {
+    run_suite_profile("C14deep", seed, count, per_case, trace)
+}
+
+pub fn run_suite_profile(profile: &str, seed: u64, count: u64, per_case: usize, mut trace: Option<std::fs::File>) -> (Vec<String>, Vec<String>, Vec<(usize, usize, Vec<&'static str>, String)>, SchedStats) {
     let mut master = Rng::new(seed ^ 0xdee9);
     let mut ops: Vec<String> = vec![];
     let mut outs: Vec<String> = vec![];
@@ -374,7 +455,8 @@ pub fn run_suite(seed: u64, count: u64, per_case: usize, mut trace: Option<std::
     let mut st = SchedStats { cases: 0, schedules: 0, nonlinearizable_known: Default::default(), distinct_outcomes: Default::default(), samples: vec![] };
     for _ in 0..count {
         let mut rng = master.fork();
-        let case = gen_case(&mut rng);
+        let lin = profile == "C03deep";
+        let case = if lin { gen_case_lin(&mut rng) } else { gen_case(&mut rng) };
         st.cases += 1;
         // grants per thread: a store is pset + (len, rm)* + set
         let counts: Vec<usize> = case.programs.iter().map(|p| p.iter().map(|f| if f[1] == op::SET { 4 } else { 1 }).sum()).collect();
@@ -404,6 +486,13 @@ pub fn run_suite(seed: u64, count: u64, per_case: usize, mut trace: Option<std::
             st.distinct_outcomes.insert(format!("{}|{}|{}|{}", o.stored, o.usage, o.racy, fmt_results(&o.results)));
             for (props, msg) in oracle(&o, case.limit, &case.setup, &case.programs) {
                 viols.push((start, end, props, msg));
+            }
+            if lin && !linearizable_plain(&case, &o) {
+                let mut props: Vec<&'static str> = vec!["C03", "C20"];
+                props.extend(crate::sched::also_broken(&case.programs, &crate::sched::Outcome { results: o.results.clone(), dump: o.dump.clone(), steps: vec![], hung: None, usage: None }).into_iter().filter(|p| *p != "C05"));
+                viols.push((start, end, props, format!(
+                    "under eviction policy random with a limit that is never reached, no one-at-a-time order of the commands explains this outcome: programs [{}] calls {} -> {} ; {}",
+                    case.programs.iter().map(|p| hexes(p)).collect::<Vec<_>>().join(" | "), o.tokens.join(" "), fmt_results(&o.results), o.dump)));
             }
         }
     }
